@@ -32,6 +32,11 @@ def variants(name, desc, ver):
     if k == "IntegerProperty":
         lo, hi = desc.get("min"), desc.get("max")
         out = {lo if lo is not None else 0, hi if hi is not None else 7, 0 if (lo is None or lo <= 0) and (hi is None or hi >= 0) else (lo or 0)}
+        if hi is None:
+            # the largest integers of the version: 64-bit in STIX 2.0, +-(2^53 - 1) in STIX 2.1 (and 2^53 itself, which the library also takes)
+            out |= {2 ** 63 - 1, 2 ** 53, 2 ** 53 - 1} if ver == "2.0" else {2 ** 53 - 1, 2 ** 53}
+        if lo is None:
+            out |= {-(2 ** 63), -(2 ** 53)} if ver == "2.0" else {-(2 ** 53) + 1}
         return sorted(out)
     if k == "FloatProperty":
         lo, hi = desc.get("min"), desc.get("max")
@@ -493,3 +498,47 @@ def run_ext_hash_case(kind, hi, order, wrap):
             return False
         return preserved(b, json.loads(o.serialize(include_optional_defaults=True)))
     return True
+
+
+# ---------------------------------------------------------------- the marking objects inside marking definitions (their content is a class of its own)
+def _marking_docs():
+    out = []
+    for ver in ("2.0", "2.1"):
+        base = {"type": "marking-definition", "id": "marking-definition--" + gen.UU, "created": "2020-01-01T00:00:00.000Z"}
+        if ver == "2.1":
+            base["spec_version"] = "2.1"
+        for st in ("", "x", "\u00e9\U0001F600 \"q\"\\ \n", "Copyright 2020", " "):
+            out.append((ver, dict(base, definition_type="statement", definition={"statement": st})))
+        mod = stix2.v20 if ver == "2.0" else stix2.v21
+        for tlp in (mod.TLP_WHITE, mod.TLP_GREEN, mod.TLP_AMBER, mod.TLP_RED):
+            out.append((ver, json.loads(tlp.serialize())))
+        if ver == "2.1":
+            out.append((ver, dict(base, name="n", definition_type="statement", definition={"statement": ""}, created_by_ref="identity--" + gen.UU)))
+            out.append((ver, dict(base, extensions={"extension-definition--" + gen.UU: {"extension_type": "property-extension", "p": ""}})))
+    return out
+
+
+MARKING_DOCS = _marking_docs()
+
+
+def marking_contents(i: int, bundled: bool) -> bool:
+    """
+    pre: 0 <= i < len(MARKING_DOCS)
+    post: _
+    """
+    i, bundled = pick(i, len(MARKING_DOCS)), pickb(bundled)
+    with Native():
+        ver, doc = MARKING_DOCS[i]
+        if bundled:
+            b = {"type": "bundle", "id": "bundle--" + gen.UU, "objects": [doc]}
+            if ver == "2.0":
+                b["spec_version"] = "2.0"
+            try:
+                o = stix2.parse(b, allow_custom=False)
+                ok = preserved(doc, json.loads(o.serialize())["objects"][0])
+            except (STIXError, ValueError, TypeError):
+                ok = False
+        else:
+            ok = accepted_and_preserved(doc, ver, "objects")
+    V.reached()
+    return ok
